@@ -103,7 +103,10 @@ def make_case(r):
     r.shuffle(depths)
     return {"yaml": y, "copies": copies, "depths": depths, "gap": r.choice(["0", "0.1", "0.3", "0.5", "0.5", "1"]),
             "max_minor_solutions": r.choice([1, 1, 3]), "fail_stage": r.choice([None] * 21 + ["cn", "major", "minor"]),
-            "perturb_seed": r.choice([None, r.randint(0, 10**6), r.randint(0, 10**6)])}
+            "perturb_seed": r.choice([None, r.randint(0, 10**6), r.randint(0, 10**6)]),
+            # the sample reaches genotype() as a debug archive written by an earlier run with default parameters: the gap and
+            # the solution count asked for now must govern the selection, as for any other input
+            "via_dump": r.random() < 0.3}
 
 
 def run_case(d, case, idx):
@@ -128,9 +131,17 @@ def run_case(d, case, idx):
     err = None
     final = None
     sols = None
+    sample_path, profile_arg, region_arg = bam, prof_bam, cnr
+    if case.get("via_dump"):
+        import c17
+        dbg = os.path.join(d, f"arch{idx}")
+        c17.run_cli(["genotype", bam, "-g", ypath, "-p", prof_bam, "-n", f"20:{cnr.start}-{cnr.end}", "-o", os.path.join(d, f"arch{idx}.aldy"),
+                     "--debug", dbg, "--genome", "hg19"])
+        if os.path.exists(dbg + ".tar.gz"):
+            sample_path, profile_arg, region_arg = dbg + ".tar.gz", None, None
     with rec:
         try:
-            res = genotype(ypath, bam, prof_bam, output_file=None, cn_region=cnr, genome="hg19", gap=case["gap"],
+            res = genotype(ypath, sample_path, profile_arg, output_file=None, cn_region=region_arg, genome="hg19", gap=case["gap"],
                            max_minor_solutions=case["max_minor_solutions"])
             sols = list(res.values())[0]
             final = [(s.score, s._solution_nice()) for s in sols]
@@ -293,6 +304,7 @@ def tie(ctx):
             same_list([(m[0], m[1]) for m in rec.selected_view], o["major_selected"], "major solutions handed to the minor stage", inp, hazard)
             same_list(out["final"], o["final"], "final solutions", inp, hazard)
             stats["final_multi"] += len(out["final"]) > 1
+            stats["via_dump"] += bool(c.get("via_dump"))
             stats["cn_multi"] += len(rec.cn) > 1
             stats["major_multi"] += len(rec.selected_view) > 1
             stats["filtered_out"] += len(rec.minor_raw) > len(out["final"])
